@@ -154,17 +154,16 @@ fn main() {
             if let Some(fo) = &s.follow { followed = fo.clone(); }
             if c.following {
                 match &followed {
-                    Ev::Err(e) => {
-                        // update returns the getter's error before touching anything: state unchanged
+                    Ev::Err(_) => {
+                        // A failing command SOURCE is not in the property's event alphabet ({present, absent, error of the state
+                        // input; set; followed-command change}): whether the controller then keeps its state, caches the error or
+                        // starts afresh is not stated, so nothing is judged from here on in this case (the panic capture around the
+                        // whole run and the bit-exact twin / alongside comparisons below still apply). An earlier version asserted
+                        // "update returns that error and nothing else changes" - more than the statement says.
                         rep.eval();
-                        rep.tally("follow_error_steps");
-                        if *upd != Err(Error::Other(*e)) || (*got != prev_obs && s.set.is_none()) {
-                            rep.violation("C11/followed-getter-error", "cmdpid", case, format!("step {}: followed command getter errs with {}: update -> {:?}, output {:?} (before {:?}); case={:?}", i, e, upd, got, prev_obs, c));
-                            ok_case = false;
-                            break;
-                        }
-                        prev_obs = got.clone();
-                        continue;
+                        rep.tally("follow_error_steps_not_judged");
+                        let _ = (upd, &prev_obs);
+                        break;
                     }
                     Ev::Some(_, cmd) => { if *cmd != cur { cur = *cmd; r = Ref::default(); rep.tally("restart_by_followed_command"); resets_seen |= 2; } }
                     Ev::None => {}
@@ -296,7 +295,6 @@ fn main() {
     rep.floor("restart_by_set_different", 100);
     rep.floor("restart_by_followed_command", 100);
     rep.floor("set_same", 100);
-    rep.floor("follow_error_steps", 50);
     rep.floor("twin_comparisons", 100);
     rep.finish(&args);
 }
